@@ -28,6 +28,8 @@ structure State where
   tracker : Ack.Tracker := Ack.Tracker.new 1 (-1) (-1)
   trackerSet : Bool := false
   sess : Session.SS := Session.SS.init
+  clusterOff : Int := 0
+  clusterUp : Bool := false
 
 def State.init : State := {}
 
@@ -229,8 +231,10 @@ def stepDb (st : State) (toks : List String) : State × String :=
   | "db.write" :: rest =>
     match (kvOf rest "off").bind (·.toInt?), (kvOf rest "ts").bind (·.toNat?), parseWrite rest with
     | some off, some ts, some req =>
+      -- in a cluster script the offsets are implicit (one entry per write, in order)
+      let off := if st.clusterUp then st.clusterOff else off
       let (db', r) := Db.processWrite st.db req off ts
-      ({ st with db := db' }, showWriteResp r)
+      ({ st with db := db', clusterOff := st.clusterOff + 1 }, showWriteResp r)
     | _, _, _ => (st, "bad-op")
   | ["db.dump"] => (st, showStore st.db.store)
   | ["db.tracker"] => (st, toString st.db.tracker)
@@ -620,6 +624,29 @@ def stepSess (st : State) (toks : List String) : State × String :=
   | ["s.dump"] => (st, sessDump s)
   | _ => (st, "bad-op")
 
+/-- the cluster scripts of C06/C07: M-Db applies the log in one go; the routes (restart, election with
+    replay, snapshot join) do not exist in the model -/
+def stepCluster (st : State) (toks : List String) : State × String :=
+  match toks with
+  | "c.init" :: rest =>
+    let en := (DbProto.kvOf rest "notif").getD "1" != "0"
+    ({ st with db := { Db.Db.empty with notificationsEnabled := en }, clusterOff := 0, clusterUp := true }, "ok")
+  | "c.checkpoint" :: rest =>
+    if !st.clusterUp then (st, "bad-op") else
+    match (DbProto.kvOf rest "ts").bind (·.toNat?) with
+    | some ts =>
+      let d := DbProto.showStore st.db.store
+      -- the marker entry: a delete of a key that never exists
+      let marker : Db.WriteReq := { puts := [], dels := [{ key := Db.str "zz-marker", expected := none }], ranges := [] }
+      let (db', _) := Db.processWrite st.db marker st.clusterOff ts
+      ({ st with db := db', clusterOff := st.clusterOff + 1 }, d)
+    | none => (st, "bad-op")
+  | ["c.restart", _] => if !st.clusterUp then (st, "bad-op") else (st, "ok")
+  | ["c.elect", _] => if !st.clusterUp then (st, "bad-op") else (st, "ok")
+  | ["c.join"] => if !st.clusterUp then (st, "bad-op") else (st, "ok")
+  | ["c.crash", _] => if !st.clusterUp then (st, "bad-op") else (st, "ok")
+  | _ => (st, "bad-op")
+
 def step (st : State) (line : String) : State × String :=
   let toks := (line.splitOn " ").filter (· ≠ "")
   match toks with
@@ -633,6 +660,7 @@ def step (st : State) (line : String) : State × String :=
     else if t.startsWith "db." || t.startsWith "idx." then stepDb st toks
     else if t.startsWith "sh." || t.startsWith "cs." || t.startsWith "cl." then stepShard st toks
     else if t.startsWith "sel." then stepSelect st toks
+    else if t.startsWith "c." then stepCluster st toks
     else if t.startsWith "s." then stepSess st toks
     else if t.startsWith "q." || t.startsWith "lc." then stepAck st toks
     else if t.startsWith "b." || t.startsWith "wb." || t.startsWith "rb." || t.startsWith "mg." || t.startsWith "km." then stepBatch st toks
